@@ -376,6 +376,7 @@ def _process_models(*, schemas: Schemas, config: Config) -> Schemas:
     still_making_progress = True
     final_model_errors: list[tuple[ModelProperty, PropertyError]] = []
     latest_model_errors: list[tuple[ModelProperty, PropertyError]] = []
+    processed: dict[tuple[int, utils.ClassName], ModelProperty] = {}
 
     # Models which refer to other models in their allOf must be processed after their referenced models
     while still_making_progress:
@@ -384,6 +385,20 @@ def _process_models(*, schemas: Schemas, config: Config) -> Schemas:
         latest_model_errors = []
         next_round = []
         for model_prop in to_process:
+            # A model reached through a single-reference allOf/oneOf/anyOf wrapper is a copy of the referenced model
+            # (same schema, same class): resolve it once, processing it again would declare its inline classes twice.
+            original = processed.get((id(model_prop.data), model_prop.class_info.name))
+            if original is not None:
+                for attr in (
+                    "required_properties",
+                    "optional_properties",
+                    "relative_imports",
+                    "lazy_imports",
+                    "additional_properties",
+                ):
+                    object.__setattr__(model_prop, attr, getattr(original, attr))
+                still_making_progress = True
+                continue
             schemas_or_err = process_model(model_prop, schemas=schemas, config=config)
             if isinstance(schemas_or_err, PropertyError):
                 schemas_or_err.header = f"\nUnable to process schema {model_prop.name}:"
@@ -398,6 +413,7 @@ def _process_models(*, schemas: Schemas, config: Config) -> Schemas:
                 next_round.append(model_prop)
                 continue
             schemas = schemas_or_err
+            processed[(id(model_prop.data), model_prop.class_info.name)] = model_prop
             still_making_progress = True
         to_process = next_round
 
